@@ -20,7 +20,8 @@ RULE = ("exhaustive: every byte 1-255 except '/' alone and inside a name, every 
         "bytes, depths 1-4, 255-byte names, paths of 2-15 such names (ASCII, UTF-8, escaped, invalid UTF-8: up to 7.6 KB once escaped), 64 boundary dates; then seeded random byte strings and random "
         "foreign .trashinfo contents; a case is non-trivial when it reaches the writer or a reader and distinct "
         "by its input bytes; world level: multi-argument trash-put runs under a clock that advances one hour per "
-        "mutating call - every written info is conformant and dated when its own entry was trashed")
+        "mutating call - every written info is conformant and dated when its own entry was trashed, and trash-list run on what "
+        "trash-put left shows every new entry under the path it was trashed from")
 
 INTERESTING = [1, 9, 10, 13, 32, 33, 34, 35, 37, 38, 39, 43, 45, 46, 47 + 1, 58, 59, 61, 63, 64, 91, 92, 93, 94, 95,
                96, 123, 126, 127, 128, 0xA9, 0xBF, 0xC0, 0xC2, 0xC3, 0xE2, 0xED, 0xF0, 0xF4, 0xFF]
